@@ -115,9 +115,10 @@ class Opaque(Abstract):
 class Sym(Abstract):
     """Order symbol: a number known only through its order relative to other symbols/constants."""
 
-    def __init__(self, name, neg=False):
+    def __init__(self, name, neg=False, integer=False):
         self.name = name
         self.neg = neg
+        self.integer = integer  # an integer-valued symbol cannot lie strictly between two consecutive integer constants
 
     def key(self):
         return ("-" if self.neg else "") + self.name
@@ -329,6 +330,7 @@ class OrderStore:
         self.names = []  # element keys: ("s", name) or ("c", int)
         self.orders = [()]
         self.facts = []  # recorded decisions
+        self.integer_symbols = set()
 
     def _index(self, key):
         if key in self.names:
@@ -346,7 +348,24 @@ class OrderStore:
             raise Undecided("order store too large (%d symbols)" % len(self.names))
         self.orders = orders
         self._apply_declared()
+        self._apply_integrality()
         return index
+
+    def mark_integer(self, key):
+        if key not in self.integer_symbols:
+            self.integer_symbols.add(key)
+            self._apply_integrality()
+
+    def _apply_integrality(self):
+        constants = [(key[1], index) for index, key in enumerate(self.names) if key[0] == "c"]
+        symbols = [index for index, key in enumerate(self.names) if key in self.integer_symbols]
+        if not symbols:
+            return
+        for value, low_index in constants:
+            for other, high_index in constants:
+                if other == value + 1:
+                    for symbol in symbols:
+                        self.orders = [o for o in self.orders if not (o[low_index] < o[symbol] < o[high_index])]
 
     _declared = ()
 
@@ -375,7 +394,13 @@ class OrderStore:
         """-1, 0 or 1 for the order of elements ``a`` and ``b`` (keys); asks the chooser when open."""
         if a == b:
             return 0
+        for key in (a, b):
+            if key in _INTEGER_KEYS:
+                self.integer_symbols.add(key)
         ia, ib = self._index(a), self._index(b)
+        self._apply_integrality()
+        if not self.orders:
+            raise Undecided("order facts are inconsistent")
         signs = sorted({(o[ia] > o[ib]) - (o[ia] < o[ib]) for o in self.orders})
         if len(signs) == 1:
             return signs[0]
@@ -385,8 +410,13 @@ class OrderStore:
         return sign
 
 
+_INTEGER_KEYS = set()
+
+
 def _order_key(value):
     if isinstance(value, Sym):
+        if value.integer:
+            _INTEGER_KEYS.add(("s", value.key()))
         return ("s", value.key())
     if isinstance(value, bool):
         raise Undecided("ordering comparison on bool")
@@ -1005,6 +1035,21 @@ class Interp:
             if value.chars is None:
                 raise Undecided("iteration over abstract text without character model")
             yield from list(value.chars)
+        elif isinstance(value, (_Enumerate, _Islice, _Zip, _Iter)):
+            # these are iterators: they keep their position between a for loop and next()
+            if value.generator is None:
+                value.generator = self._fresh_iterator(value)
+            yield from value.generator
+        else:
+            hook = self.externals.get("iterate")
+            if hook is not None:
+                yield from hook(self, [value], {})
+                return
+            raise Undecided("iteration over %r" % (value,))
+
+    def _fresh_iterator(self, value):
+        if isinstance(value, _Iter):
+            yield from self.iterate(value.inner)
         elif isinstance(value, _Enumerate):
             index = value.start
             for item in self.iterate(value.inner):
@@ -1029,12 +1074,6 @@ class Interp:
                     except StopIteration:
                         return
                 yield tuple(row)
-        else:
-            hook = self.externals.get("iterate")
-            if hook is not None:
-                yield from hook(self, [value], {})
-                return
-            raise Undecided("iteration over %r" % (value,))
 
     # ------------------------------------------------------------ statements
     def exec_block(self, statements, frame):
@@ -1520,17 +1559,28 @@ class _Enumerate:
     def __init__(self, inner, start):
         self.inner = inner
         self.start = start
+        self.generator = None
 
 
 class _Islice:
     def __init__(self, inner, limit):
         self.inner = inner
         self.limit = limit
+        self.generator = None
 
 
 class _Zip:
     def __init__(self, inners):
         self.inners = inners
+        self.generator = None
+
+
+class _Iter:
+    """iter(x): an iterator with its own position."""
+
+    def __init__(self, inner):
+        self.inner = inner
+        self.generator = None
 
 
 def _is_int(value):
@@ -1961,7 +2011,24 @@ def _next(interp, args, kwargs):
                 return args[1]
             interp.raise_("builtins.StopIteration")
         return item
+    if isinstance(source, (_Enumerate, _Islice, _Zip, _Iter)):
+        if source.generator is None:
+            source.generator = interp._fresh_iterator(source)
+        try:
+            return next(source.generator)
+        except StopIteration:
+            if len(args) > 1:
+                return args[1]
+            interp.raise_("builtins.StopIteration")
     raise Undecided("next() on %r" % (source,))
+
+
+@_ext("builtins.iter")
+def _iter(interp, args, kwargs):
+    (source,) = args
+    if isinstance(source, (GenVal, AbsIter, _Enumerate, _Islice, _Zip, _Iter)):
+        return source
+    return _Iter(source)
 
 
 @_ext("builtins.ord")
